@@ -172,7 +172,8 @@ GROUPS = [
     Group('pg_roundtrip', 'h_lemma_pg_roundtrip', min_props=3),
     Group('book_search', 'h_search', enforce='Book_getBookEntries_search', replace=('ghost_readEntry', 'PolyglotBook_deSerialize'), loop_contracts=True, min_props=5, expect_loop_props=1),
     Group('book_select', 'h_select', enforce='Book_getBookMove_select', replace=('ghost_legal_moves', 'ghost_nextInt', 'Book_getWeight'), min_props=10, timeout=1800,
-          unwindset={'Book_getBookMove_select': 18}),
+          unwindset={'Book_getBookMove_select': 18},
+          bounded='at most 4 book entries for the probed position and 16 legal moves (loops unrolled to these bounds, unwinding assertions on)'),
     Group('book_getWeight', 'h_getWeight', enforce='Book_getWeight', replace=('ghost_sqrt',), floats=True, min_props=3),
 ]
 PROPERTIES = {'C18': [g.name for g in GROUPS]}
